@@ -14,6 +14,8 @@ pub mod c11;
 pub mod c12;
 pub mod c13;
 pub mod c14;
+pub mod c15;
+pub mod c16;
 pub mod c18;
 pub mod c19;
 
@@ -37,6 +39,8 @@ pub fn all() -> Vec<Prop> {
         Prop { id: "C12", level: "exploration", run: c12::run },
         Prop { id: "C13", level: "exploration", run: c13::run },
         Prop { id: "C14", level: "exploration", run: c14::run },
+        Prop { id: "C15", level: "exploration", run: c15::run },
+        Prop { id: "C16", level: "exploration", run: c16::run },
         Prop { id: "C18", level: "exploration", run: c18::run },
         Prop { id: "C19", level: "exploration", run: c19::run },
     ]
